@@ -735,6 +735,20 @@ class DocumentMapper:
             return ins_id
         return None
 
+    def insertion_around(self, index: int) -> Optional[str]:
+        """
+        Id of the pending insertion whose text lies directly on both sides of `index` (the position is
+        strictly inside that insertion), else None.
+        """
+        before = [s for s in self.spans if s.run and s.start < index <= s.end]
+        after = [s for s in self.spans if s.run and s.start <= index < s.end]
+        if not before or not after:
+            return None
+        ins_id = before[-1].ins_id
+        if ins_id and after[0].ins_id == ins_id:
+            return ins_id
+        return None
+
     def get_context_at_range(self, start_idx: int, end_idx: int) -> Optional[TextSpan]:
         real_spans = [s for s in self.spans if s.run and s.end > start_idx and s.start < end_idx]
         if real_spans:
